@@ -149,6 +149,9 @@ def run(tier, seed, replay):
                time_s=time.time() - t0)
     t0 = time.time()
     nat = run_native("options_harness", {"op": "same_content"}, timeout=600)
+    if nat.get("unreadable"):
+        chk.undecided.append(f"C16: the JSON report of {len(nat['unreadable'])} command-line run(s) could not be read by the harness "
+                             f"({nat['unreadable'][0][:120]}): nothing is concluded from them")
     chk.finite("file.two_stored_copies_report_what_the_inline_content_reports", not nat["violations"], nat["cases"],
                {"violations": nat["violations"][:3]}, what=f"stored content versus inline content: {nat['violations'][:2]}",
                time_s=time.time() - t0)
